@@ -271,7 +271,8 @@ class BSL(ModelBased):
                 # update gamma sampler state
                 self.gamma_sampler_state['loglik'] = loglikelihood
                 self.gamma_sampler_state['sample_mean'] = np.mean(self.simulated, axis=0)
-                self.gamma_sampler_state['sample_cov'] = np.cov(self.simulated, rowvar=False)
+                self.gamma_sampler_state['sample_cov'] = np.atleast_2d(
+                    np.cov(self.simulated, rowvar=False))
             if n >= self.burn_in:
                 self.num_accepted += 1
         else:
